@@ -8,6 +8,8 @@ import (
 	"strings"
 )
 
+var _ = ast.NewIdent
+
 var ghostHeap = map[string]bool{}
 
 // lowerTop lowers one function (or literal) under its contract into IVL with all obligations.
@@ -19,7 +21,7 @@ func (p *Prog) lowerTop(fi *FuncInfo, ct *Contract) (fv *FuncIVL, err error) {
 	}()
 	f := &FuncIVL{Key: fi.Key, Vars: map[string]string{}, HeapVars: map[string]bool{}, Assumptions: map[string]bool{}}
 	l := &Lowerer{p: p, f: f, obOrd: map[string]int{}, labels: map[string]*Block{}, fnKey: fi.Key,
-		escaped: map[string]bool{}, escapedHeap: map[string]bool{}, labelSeen: map[string]bool{}}
+		escaped: map[string]bool{}, escapedHeap: map[string]bool{}, labelSeen: map[string]bool{}, initializing: map[string]bool{}}
 	if ct != nil {
 		l.curProps = ct.Props
 		l.noSafety = ct.NoSafety
@@ -210,6 +212,42 @@ func (p *Prog) lowerTop(fi *FuncInfo, ct *Contract) (fv *FuncIVL, err error) {
 		pre = append(pre, &Stmt{Kind: SAssign, Var: v, Sort: f.Vars[v], E: V(base, f.Vars[base])})
 	}
 	f.Entry.Stmts = append(pre, f.Entry.Stmts...)
+	// acq(...) snapshots at every lock acquisition (later acquisitions overwrite earlier ones)
+	var acqs []string
+	for v := range f.Vars {
+		if strings.HasSuffix(v, "@acq") {
+			acqs = append(acqs, v)
+		}
+	}
+	sort.Strings(acqs)
+	if len(acqs) > 0 {
+		// insert from the last point to the first so indices stay valid per block
+		pts := append([]acqPoint{}, l.acqPoints...)
+		sort.SliceStable(pts, func(i, j int) bool {
+			if pts[i].b.ID != pts[j].b.ID {
+				return pts[i].b.ID < pts[j].b.ID
+			}
+			return pts[i].idx > pts[j].idx
+		})
+		for _, pt := range pts {
+			var ins []*Stmt
+			for _, v := range acqs {
+				base := strings.TrimSuffix(v, "@acq")
+				if _, ok := f.Vars[base]; !ok {
+					continue
+				}
+				ins = append(ins, &Stmt{Kind: SAssign, Var: v, Sort: f.Vars[v], E: V(base, f.Vars[base])})
+			}
+			idx := pt.idx
+			if pt.b == f.Entry {
+				idx += len(pre)
+			}
+			st := append([]*Stmt{}, pt.b.Stmts[:idx]...)
+			st = append(st, ins...)
+			st = append(st, pt.b.Stmts[idx:]...)
+			pt.b.Stmts = st
+		}
+	}
 	// ghost heap variables known to the mod-set matcher
 	for tn, fs := range p.ghostFields {
 		for gf := range fs {
@@ -449,4 +487,84 @@ func (l *Lowerer) frameObligations(ct *Contract, chain []*Contract) {
 		l.assertOb("frame", strings.TrimPrefix(hv, "F."), "only the declared frame of "+hv+" changes", nil,
 			&Term{Op: "forall", Sort: "Bool", Args: []*Term{bv, body}}, nil)
 	}
+}
+
+// specLowerer returns a lowerer for closed spec terms (lemmas, axioms) in package pkg.
+func (p *Prog) specLowerer(key string) *Lowerer {
+	f := &FuncIVL{Key: key, Vars: map[string]string{}, HeapVars: map[string]bool{}, Assumptions: map[string]bool{}}
+	l := &Lowerer{p: p, f: f, obOrd: map[string]int{}, labels: map[string]*Block{}, fnKey: key,
+		escaped: map[string]bool{}, escapedHeap: map[string]bool{}, labelSeen: map[string]bool{}, initializing: map[string]bool{}}
+	fi := &FuncInfo{Key: key, Pkg: p.pkgs[0]}
+	l.fr = &frame{fi: fi, objVar: map[types.Object]string{}}
+	f.Entry = f.newBlock("entry")
+	l.cur = f.Entry
+	l.spec = true
+	return l
+}
+
+// setupGhost declares ghost functions and their axioms (once, after contracts are loaded).
+func (p *Prog) setupGhost() (err error) {
+	defer func() {
+		if r := recover(); r != nil {
+			err = fmt.Errorf("ghost setup: %v", r)
+		}
+	}()
+	l := p.specLowerer("$ghost")
+	for _, g := range p.ghostFunDecls {
+		var sorts []string
+		for _, a := range g.args {
+			sorts = append(sorts, p.sortOf(l.ghostTypeExpr(a)))
+		}
+		rt := l.ghostTypeExpr(g.res)
+		p.ghostFuns[g.name] = &ghostFun{argSorts: sorts, resSort: p.sortOf(rt), resType: rt}
+		p.reg.Fun("ghost."+g.name, sorts, p.sortOf(rt))
+	}
+	for _, a := range p.axioms {
+		t, _ := l.tr(a.Expr)
+		var sb strings.Builder
+		t.Print(&sb, func(s string) string { return s })
+		p.reg.Axiom("ghost."+a.Label, sb.String())
+	}
+	return nil
+}
+
+func (l *Lowerer) ghostTypeExpr(s string) types.Type {
+	e, err := parseSpec("forall x " + s + " :: true")
+	if err != nil {
+		panic(err)
+	}
+	return l.specType(e.(*ast.CallExpr).Args[1])
+}
+
+// lemmaQueries: lemmas are closed formulas proved on their own.
+func (p *Prog) lemmaQueries(prop string) []*Query {
+	var out []*Query
+	for _, c := range p.lemmas {
+		if !hasProp(c.Props, prop) {
+			continue
+		}
+		l := p.specLowerer("lemma." + c.Label)
+		var t *Term
+		func() {
+			defer func() {
+				if r := recover(); r != nil {
+					p.warn("lemma %s: %v", c.Label, r)
+				}
+			}()
+			t, _ = l.tr(c.Expr)
+		}()
+		if t == nil {
+			continue
+		}
+		ob := &Oblig{Name: "lemma/" + c.Label, Kind: "lemma", Func: "lemma", Label: c.Label, Descr: c.Src, Props: c.Props}
+		l.emit(&Stmt{Kind: SAssert, E: t, Ob: ob})
+		l.f.Obligs = append(l.f.Obligs, ob)
+		qs, err := generateVCs(p, l.f)
+		if err != nil {
+			p.warn("lemma %s: %v", c.Label, err)
+			continue
+		}
+		out = append(out, qs...)
+	}
+	return out
 }
